@@ -81,7 +81,8 @@ type auTokAns struct {
 	Kind  string `json:"kind"` // grant | notoken | e401 | e404 | other
 	Life  int    `json:"life"` // ticks (two per second); 0: not stated
 	NewRT bool   `json:"newrt"`
-	Var   int    `json:"var"` // concrete variant of the class
+	Var   int    `json:"var"`   // concrete variant of the class
+	Delay int    `json:"delay"` // real-time scenarios: the token server answers this many ticks after the request arrived
 }
 
 type auCall struct {
@@ -99,8 +100,11 @@ type auCall struct {
 }
 
 type auStep struct {
-	At    int      `json:"at"`
-	Calls []auCall `json:"calls"`
+	// Stagger: the second call of the batch enters RoundTrip when the first call's (delayed) token request
+	// has reached the token server, i.e. while the first call holds the per-host lock of auth.go.
+	Stagger bool     `json:"stagger"`
+	At      int      `json:"at"`
+	Calls   []auCall `json:"calls"`
 }
 
 // auNamings: how the abstract registry ids of a scenario are spelled in URLs.  In most scenarios the
@@ -219,11 +223,32 @@ var auBadHdrs = []string{
 	`"Bearer" realm="http://ra/token"`, `Basic realm=`, `Bearer realm="http://ra/token",scope=`,
 }
 
+// auSpell: a parameter name in lower case, Capitalised, UPPER case or mIxEd case.
+func auSpell(name string, style int) string {
+	switch style {
+	case 1:
+		return strings.ToUpper(name[:1]) + name[1:]
+	case 2:
+		return strings.ToUpper(name)
+	case 3:
+		b := []byte(name)
+		for i := 1; i < len(b); i += 2 {
+			b[i] = byte(strings.ToUpper(string(b[i]))[0])
+		}
+		return string(b)
+	}
+	return name
+}
+
 // auHeaderFor renders one offer as a Www-Authenticate line; -> line, scope text used
 func auHeaderFor(o auOffer, rnd *rand.Rand) (string, string) {
 	switch o.Scheme {
 	case "basic":
-		switch rnd.Intn(5) {
+		switch rnd.Intn(7) {
+		case 5:
+			return `Basic Realm="registry"`, ""
+		case 6:
+			return `BASIC REALM="Registry", Charset="UTF-8"`, ""
 		case 0:
 			return `Basic realm="registry"`, ""
 		case 1:
@@ -273,6 +298,13 @@ func auHeaderFor(o auOffer, rnd *rand.Rand) (string, string) {
 	}
 	if rnd.Intn(4) == 0 {
 		params = append(params, `error="insufficient_scope"`)
+	}
+	// auth-param names are case-insensitive (RFC 7235 section 2.1): one spelling style per header
+	style := []int{0, 0, 1, 2, 3}[rnd.Intn(5)]
+	for i, p := range params {
+		if k := strings.IndexByte(p, '='); k > 0 {
+			params[i] = auSpell(p[:k], style) + p[k:]
+		}
 	}
 	rnd.Shuffle(len(params), func(i, j int) { params[i], params[j] = params[j], params[i] })
 	sep := []string{",", ", ", " , ", ",\t"}[rnd.Intn(4)]
@@ -535,6 +567,53 @@ func auExpiryScen(rnd *rand.Rand, maxTick int) auScen {
 	return sc
 }
 
+// auLockWaitScen: a short-lived token T for {b} is cached; then call A (required scope {a}, not covered)
+// starts a token acquisition that the token server answers only after T has expired - auth.go holds the
+// host's lock all that time - and call B (required scope {b}) enters RoundTrip while T still has more than
+// a second left and gets the lock only after T's expiry.
+func auLockWaitScen(rnd *rand.Rand, maxTick int) auScen {
+	sc := auScen{Cfg: map[string]string{}, Timed: true, Src: "rand-lockwait"}
+	for _, h := range auHosts {
+		sc.Cfg[h] = auKinds[rnd.Intn(5)]
+	}
+	h := auHosts[rnd.Intn(len(auHosts))]
+	sc.Cfg[h] = []string{"none", "basic", "refresh", "both"}[rnd.Intn(4)]
+	p := rnd.Perm(len(auRS))
+	a, b := []string{auRS[p[0]]}, []string{auRS[p[1]]}
+	realm := auRealms[rnd.Intn(len(auRealms))]
+	call := func(req []string, lives []int, delay int, firstOK bool) auCall {
+		c := auCall{H: h, Req: req, Want: []string{}, Form: rnd.Intn(5), Body: []string{"none", "none", "plain", "getbody"}[rnd.Intn(4)]}
+		chal := auRegAns{Status: 401, Offers: []auOffer{{Scheme: "bearer", Realm: realm, Scope: append([]string{}, req...)}}}
+		if firstOK {
+			c.Reg = []auRegAns{{Status: 200}, {Status: 200}}
+		} else {
+			c.Reg = []auRegAns{chal, {Status: 200}}
+		}
+		for i := 0; i < 4; i++ {
+			t := auTokAns{Kind: "grant", Life: lives[i%len(lives)], Var: rnd.Intn(1000)}
+			if i == 0 {
+				t.Delay = delay
+			}
+			c.Tok = append(c.Tok, t)
+		}
+		return c
+	}
+	life := 4 + 2*rnd.Intn(2) // T lives 2 s or 3 s
+	t1 := rnd.Intn(2)         // B enters with at least 1.5 s of T left
+	due := life + rnd.Intn(2) // the delayed answer comes at or after T's expiry
+	if due > maxTick {
+		due = maxTick
+	}
+	sc.Steps = append(sc.Steps, auStep{At: 0, Calls: []auCall{call(b, []int{life}, 0, false)}})
+	sc.Steps = append(sc.Steps, auStep{At: t1, Stagger: true, Calls: []auCall{
+		call(a, []int{0}, due-t1, false),
+		call(b, []int{0, 2}, 0, rnd.Intn(2) == 0)}})
+	if due < maxTick && rnd.Intn(2) == 0 {
+		sc.Steps = append(sc.Steps, auStep{At: due + rnd.Intn(2), Calls: []auCall{call(b, []int{0}, 0, true)}})
+	}
+	return sc
+}
+
 // ---------------------------------------------------------------- TLC walks -> scenarios
 
 type auWalkOp struct {
@@ -619,16 +698,19 @@ type auCallState struct {
 }
 
 type auRun struct {
-	rev     map[string]string // URL host -> abstract id
-	sc      *auScen
-	mu      sync.Mutex
-	events  []auEv
-	start   time.Time
-	bucket  int
-	jitter  bool
-	tokN    int
-	rtN     int
-	planned int // tick of the step in progress
+	rev       map[string]string // URL host -> abstract id
+	sc        *auScen
+	mu        sync.Mutex
+	events    []auEv
+	start     time.Time
+	bucket    int
+	jitter    bool
+	tokN      int
+	rtN       int
+	planned   int           // tick of the step in progress
+	planned2  int           // tick at which a delayed token answer of the step is due (-1: none)
+	inTok     chan struct{} // closed when a delayed token request has arrived
+	inTokOnce sync.Once
 }
 
 // abstract: the id of the registry a URL host names (anything else is logged as it is)
@@ -664,7 +746,7 @@ func (r *auRun) log(e auEv, inStep bool) {
 		}
 		if inStep {
 			off := ms - b*auTickMs
-			if b != r.planned || off < auSafeLo || off > auSafeHi {
+			if (b != r.planned && b != r.planned2) || off < auSafeLo || off > auSafeHi {
 				r.jitter = true
 			}
 		}
@@ -815,7 +897,21 @@ func (t auTransport) RoundTrip(req *http.Request) (*http.Response, error) {
 			ans = cs.call.Tok[cs.tokN]
 			cs.tokN++
 		}
-		ev := auEv{"op": "tokresp", "c": slot, "kind": ans.Kind, "life": ans.Life, "rt": 0, "id": 0}
+		if ans.Delay > 0 && cs != nil {
+			// a slow token server: the answer is given in the middle of tick at+Delay; meanwhile the code under
+			// test keeps whatever it holds, and the other call of a staggered batch is let in
+			r.planned2 = cs.at + ans.Delay
+			r.inTokOnce.Do(func() { close(r.inTok) })
+			if r.sc.Timed {
+				target := r.start.Add(time.Duration((cs.at+ans.Delay)*auTickMs+auTickMs/2) * time.Millisecond)
+				r.mu.Unlock()
+				if d := time.Until(target); d > 0 {
+					time.Sleep(d)
+				}
+				r.mu.Lock()
+			}
+		}
+		ev := auEv{"op": "tokresp", "c": slot, "kind": ans.Kind, "life": ans.Life, "rt": 0, "id": 0, "delay": ans.Delay}
 		var resp *http.Response
 		var err error
 		switch ans.Kind {
@@ -1064,9 +1160,26 @@ func auRunScen(sc *auScen) (events []auEv, ok bool) {
 			}
 		}
 		r.mu.Lock()
-		r.planned = st.At
+		r.planned, r.planned2 = st.At, -1
+		r.inTok, r.inTokOnce = make(chan struct{}), sync.Once{}
 		r.mu.Unlock()
-		if len(st.Calls) == 1 {
+		if st.Stagger && len(st.Calls) == 2 {
+			var wg sync.WaitGroup
+			wg.Add(2)
+			go func() {
+				defer wg.Done()
+				r.doCall(tr, 1, &st.Calls[0], st.At, nil)
+			}()
+			go func() {
+				defer wg.Done()
+				select { // (if the first call never makes the delayed token request the second one starts anyway)
+				case <-r.inTok:
+				case <-time.After(150 * time.Millisecond):
+				}
+				r.doCall(tr, 2, &st.Calls[1], st.At, nil)
+			}()
+			wg.Wait()
+		} else if len(st.Calls) == 1 {
 			r.doCall(tr, 1, &st.Calls[0], st.At, nil)
 		} else {
 			var wg, begun sync.WaitGroup
@@ -1156,8 +1269,10 @@ func authCmd(args []string) error {
 		for i := 0; i < *n+*nt; i++ {
 			rnd := rand.New(rand.NewSource(*seed*7919 + int64(i)*104729 + 17))
 			var s auScen
-			if i >= *n && (i-*n)%2 == 1 {
+			if i >= *n && (i-*n)%4 == 1 {
 				s = auExpiryScen(rnd, *maxTick)
+			} else if i >= *n && (i-*n)%4 == 3 {
+				s = auLockWaitScen(rnd, *maxTick)
 			} else {
 				s = auRandScen(rnd, i >= *n, *maxTick, true)
 			}
